@@ -211,6 +211,32 @@ Lemma noninterference_env s m1 m2 ops1 ops2 :
   primary_trace (run s m1 ops1) = primary_trace (run s m2 ops2).
 Proof. intros E. unfold run. rewrite !run1_char, E. reflexivity. Qed.
 
+(** the fan-out to mirror j looks at mirror j only *)
+Lemma mirror_send_nth cs b j :
+  nth_error (mirror_send cs b) j =
+  option_map (fun c => if unavailable c then c else push b c) (nth_error cs j).
+Proof. rewrite mirror_send_pointwise. apply nth_error_map'. Qed.
+
+Lemma mirrors_independent_send cs1 cs2 b j :
+  nth_error cs1 j = nth_error cs2 j ->
+  nth_error (mirror_send cs1 b) j = nth_error (mirror_send cs2 b) j.
+Proof. intros E. rewrite !mirror_send_nth, E. reflexivity. Qed.
+
+(** ... for whole runs: mirror j ends in the same state whatever the other mirrors are and do *)
+Lemma mirrors_independent ops : forall s m1 m2 j,
+  nth_error m1 j = nth_error m2 j ->
+  nth_error (snd (fst (run1 (s, m1) ops))) j =
+  nth_error (snd (fst (run1 (s, m2) (filter (concerns j) ops)))) j.
+Proof.
+  induction ops as [|o r IH]; intros s m1 m2 j E; [exact E|].
+  destruct o as [b ok | i e]; cbn [filter concerns].
+  - rewrite !run1_cons_send. cbn [fst snd]. apply IH. apply mirrors_independent_send. exact E.
+  - rewrite run1_cons_env. destruct (i =? j) eqn:Q.
+    + apply Nat.eqb_eq in Q. subst i. rewrite run1_cons_env. apply IH.
+      rewrite !nth_error_upd_nth_eq, E. reflexivity.
+    + apply Nat.eqb_neq in Q. apply IH. rewrite nth_error_upd_nth_neq by auto. exact E.
+Qed.
+
 (** every buffer passed to send appears in the primary trace, once, in order, unchanged *)
 Lemma primary_trace_is_the_sends s m ops : snd (primary_trace (run s m ops)) = sends_of ops.
 Proof. unfold run. rewrite run1_char. reflexivity. Qed.
